@@ -92,6 +92,11 @@ def gen(ctx, rnd, quick):
         add("opcount-redeem-restarts", p2sh(red201), P.push(red201))
         add("stack-carries-over", bytes([0x75]) * 998 + bytes([0x51]) if False else bytes([0x6d]) * 499 + bytes([0x75]), bytes([0x51]) * 1000, flags=NOCLEAN)
         add("stack-limit-across", bytes([0x51]), bytes([0x51]) * 1000, flags=NOCLEAN)
+        add("undefined-opcode-in-dead-branch", bytes([0x51, 0x87]), bytes([0x00, 0x63, rnd.choice((0xbb, 0xc0, 0xfe)), 0x68, 0x51]), flags=NOPUSH, finding="F-C03-undefined-opcode-refused")
+        add("empty-scriptpubkey-sigpushonly", b"", bytes([0x51, 0x61]), finding="F-C03-empty-scriptpubkey")
+        wsf = bytes([0x00])
+        add("witness-flag-off", b"\x00\x20" + P.sha256(wsf), b"", [wsf],
+            flags=R.STD & ~(1 << FB["WITNESS"]) & ~(1 << FB["CLEANSTACK"]) & ~(1 << FB["TAPROOT"]), finding="F-C03-witness-flag-off")
         add("bare-true", bytes([0x51]))
         add("bare-false", bytes([0x00]))
         add("bare-empty-stack", bytes([0x61]))
@@ -112,6 +117,17 @@ def gen(ctx, rnd, quick):
         s3 = S.build(rnd, "p2tr-script", {"leaf_script": shape, "leaf_args": [pre], "annex": False})
         cases.append((S.spend_line(s3.tx, s3.txin, R.STD), {"kind": "p2tr-script", "label": "tapscript-p2sh-shaped-leaf", "flags": R.STD}))
         add("p2wsh-extra-item", b"\x00\x20" + P.sha256(ws), b"", [b"\x07", ws])
+        # the 520-byte limit is about stack items: the revealed script, the control block and the annex may be longer
+        for nrep in (6, 7, 8, 40, 128):
+            bigws = (P.push(rb(rnd, 75)) + bytes([0x75])) * nrep + bytes([0x51])        # 463, 540, 617, 3081, 9857 bytes
+            add("p2wsh-script-%d-bytes" % len(bigws), b"\x00\x20" + P.sha256(bigws), b"", [bigws])
+        bigws = (P.push(rb(rnd, 75)) + bytes([0x75])) * 130 + bytes([0x51])              # above 10000: refused by both
+        add("p2wsh-script-over-10000", b"\x00\x20" + P.sha256(bigws), b"", [bigws])
+        bigleaf = (P.push(rb(rnd, 75)) + bytes([0x75])) * rnd.choice((7, 9, 140)) + bytes([0x51])
+        s4 = S.build(rnd, "p2tr-script", {"leaf_script": bigleaf, "leaf_args": [], "annex": False, "path_len": rnd.choice((0, 16, 17, 20))})
+        cases.append((S.spend_line(s4.tx, s4.txin, R.STD), {"kind": "p2tr-script", "label": "tapscript-long-leaf-long-path", "built_valid": True, "flags": R.STD}))
+        s5 = S.build(rnd, "p2tr-script", {"path_len": rnd.choice((16, 31, 128)), "annex": False})
+        cases.append((S.spend_line(s5.tx, s5.txin, R.STD), {"kind": "p2tr-script", "label": "tapscript-long-path", "built_valid": s5.valid, "flags": R.STD}))
         add("p2wsh-wrong-hash", b"\x00\x20" + rb(rnd, 32), b"", [ws])
         big = bytes([0x75, 0x51])
         add("p2wsh-oversize-item", b"\x00\x20" + P.sha256(big), b"", [b"\x01" * 521, big], finding=None)
